@@ -79,6 +79,12 @@ CHECKS = {
             "transition / generation stream; generated messages incl. inputs and outputs are compared with the operational model; deliveries vs generation per op",
             "Multiplicity across operations is decided by the monitor on engine streams over generated runs, not by an operational proof. Generation order is observed at "
             "Emitter::emit_message; cross-task delivery order of independently spawned dispatch tasks is not compared. nanoid collision freedom is trusted.", "5 C08"),
+    "C07": ("Lean 4 K3 theorems over every scope chain, key and value on Model/Scope.lean (writer reads its own write; the unique holder receives the value and later "
+            "readers whose ancestry reaches it see it; only the holder changes; private keys stay local; W: the outermost holder wins without the uniqueness hypothesis) + K1 on "
+            "the private-key constants; the operational model computes every write and read with these very functions and is compared with the engine on the data of every "
+            "task, on message inputs/outputs and on terminal-event outputs; direct monitors on before/after dumps (frame, holder update, option cut, cross-process)",
+            "The Scope functions are a transcription of find/update_data/set_data; the tie is differential (every task's data after every operation). `code` scripts and "
+            "{{template}} readers are outside this fragment (C14). The generator keeps each name declared by at most one enclosing scope, as the property quantifies.", "5 C07"),
 }
 
 NOT_YET = {}
